@@ -122,6 +122,7 @@ P = {
 ADD = {
     "C01": ("; load-time event filters evaluated on all weak orderings against the simulated span (t0, t1] (R10); stored event times reach the integration event un-quantised and in their own slot (R11)", "; weak-ordering evaluation of load-time filters; provenance of event times without lossy operators"),
     "C02": ("; the reported measurement components are the exact recoveries of the spherical model that defines the SEZ vector - quadrant agreement of the azimuth, elevation, range and range rate (R11); measurement noise is drawn with a factor F satisfying F F^T = R (R12)", "; rational-function normal forms and quadrant (atan2 slot / sign) agreement; matrix-factor convention table"),
+    "C03": ("; solve_ivp's per-event result lists are read per event in both restart loops (R4); the restart loop of propagate is read through a symbolic loop summary, so R1 does not depend on statement shape", "; symbolic loop summaries; ragged-collection discipline of the event lists"),
     "C04": ("; RSW / NTW triads are orthonormal and right-handed for every state, decided algebraically from how the rows are built (R9); the spherical model: documented position rows, velocity rows equal to their formal time derivative, and every angle recovery (cartesian2spherical, getAzimuth / getElevation / getRange / getRangeRate) agrees with it slot by slot and quadrant by quadrant, quotients compared by cross multiplication (R10); no conversion function hands back a result stored for another argument - memo soundness (R11)", "; abstract vector algebra of basis triads; rational-function normal forms with formal differentiation; memo-soundness analysis of state that outlives a call"),
     "C05": ("; memo soundness of the time conversions (R7); the step count, the clock tick and the agents' step all come from the configured physics step, unmodified (R8)", "; memo-soundness analysis; provenance agreement of the step size across scenario, clock and agents"),
     "C06": ("; a matrix rebuilt from svd / eigh / eig outputs uses each factor in the orientation the decomposition returns it (R7)", "; decomposition-output orientation table"),
